@@ -63,6 +63,22 @@ def candidates(prog, f):
             continue
         v = strip_casts(c.ops[0])
         if not (v.is_inst and v.op == "load"):
+            # the freed value itself was put into caller-visible memory earlier (linked into a list, stored in a field)
+            for st in f.insts():
+                # the store must dominate the free: inside a loop the same SSA name denotes a new object per iteration, and a
+                # store that merely reaches the free belongs to an earlier object
+                if st.op == "store" and strip_casts(st.ops[0]) is v and f.inst_dominates(st, c):
+                    L2 = st.ops[1]
+                    b2 = strip_casts(resolve_ptr(prog, L2, f.unit)[0])
+                    if b2.is_inst and b2.op == "alloca":
+                        continue
+                    if b2 is v:
+                        continue        # a field of the freed object itself
+                    # overwritten again before the free?
+                    if any(i.op == "store" and i is not st and _same_loc(prog, f, i.ops[1], L2) and f.inst_dominates(st, i) and
+                           f.inst_dominates(i, c) for i in f.insts()):
+                        continue
+                    out.append((c, L2, b2))
             continue
         L = v.ops[0]
         base = strip_casts(resolve_ptr(prog, L, f.unit)[0])
